@@ -321,11 +321,11 @@ M("C16-benign-return-1", "C16", "src/interrogate/interrogate_module.cxx",
 
 # ---------------------------------------------------------------- C17
 M("C17-includer-before-cwd", "C17", "src/cppparser/cppPreprocessor.cxx",
-  "  if (!angle_quotes && filename.exists()) {\n    source = CPPFile::S_local;\n    return true;\n  }\n\n  // Search the same directory as the includer.\n  if (!angle_quotes) {\n    Filename match(get_file()._filename.get_dirname(), filename);\n    if (match.exists()) {\n      filename = match;\n      source = CPPFile::S_alternate;\n      return true;\n    }\n  }\n",
-  "  // Search the same directory as the includer.\n  if (!angle_quotes) {\n    Filename match(get_file()._filename.get_dirname(), filename);\n    if (match.exists()) {\n      filename = match;\n      source = CPPFile::S_alternate;\n      return true;\n    }\n  }\n\n  if (!angle_quotes && filename.exists()) {\n    source = CPPFile::S_local;\n    return true;\n  }\n",
+  "  if (!angle_quotes && filename.is_regular_file()) {\n    source = CPPFile::S_local;\n    return true;\n  }\n\n  // Search the same directory as the includer.\n  if (!angle_quotes) {\n    Filename match(get_file()._filename.get_dirname(), filename);\n    if (match.is_regular_file()) {\n      filename = match;\n      source = CPPFile::S_alternate;\n      return true;\n    }\n  }\n",
+  "  // Search the same directory as the includer.\n  if (!angle_quotes) {\n    Filename match(get_file()._filename.get_dirname(), filename);\n    if (match.is_regular_file()) {\n      filename = match;\n      source = CPPFile::S_alternate;\n      return true;\n    }\n  }\n\n  if (!angle_quotes && filename.is_regular_file()) {\n    source = CPPFile::S_local;\n    return true;\n  }\n",
   expect="R17.1|find_include|probe#0")
 M("C17-angle-searches-cwd", "C17", "src/cppparser/cppPreprocessor.cxx",
-  "  if (!angle_quotes && filename.exists()) {\n    source = CPPFile::S_local;", "  if (filename.exists()) {\n    source = CPPFile::S_local;",
+  "  if (!angle_quotes && filename.is_regular_file()) {\n    source = CPPFile::S_local;", "  if (filename.is_regular_file()) {\n    source = CPPFile::S_local;",
   expect="R17.1|find_include|probe#0")
 M("C17-system-labelled-local", "C17", "src/cppparser/cppPreprocessor.cxx",
   "    source = CPPFile::S_system;\n    return true;", "    source = CPPFile::S_alternate;\n    return true;",
